@@ -123,6 +123,11 @@ func (e *Engine) VerifyFunc(con *Contract, workdir string, timeoutS int, all boo
 		res.Trusted = true
 		return res
 	}
+	if con.Unbound {
+		res.Notes = append(res.Notes, "contract no longer binds to the code (a clause does not type-check): unit not verified")
+		res.Trusted = true
+		return res
+	}
 	u := &Unit{Key: key, Con: con, Fn: fn, Spec: ps}
 	x := e.newExec(u, ps.Mode)
 	res.World = x.w
